@@ -125,8 +125,17 @@ class Model():
 
         for cell in self.cells:
             if self.cells[cell].formula is not None:
+                # A name bound to a range stands for the address under which
+                # that range is registered, a name bound to a cell for the
+                # address of the cell.
+                range_addresses = {
+                    str(rng.cells): address
+                    for address, rng in self.ranges.items()
+                    if isinstance(rng, xltypes.XLRange)}
                 defined_names = {
-                    name: defn.address
+                    name: (range_addresses.get(str(defn.cells), defn.address)
+                           if isinstance(defn, xltypes.XLRange)
+                           else defn.address)
                     for name, defn in self.defined_names.items()}
                 self.cells[cell].formula.ast = parser.FormulaParser().parse(
                     self.cells[cell].formula.formula, defined_names)
